@@ -703,6 +703,28 @@ def c04_callid(ctx):
         ctx.check(under_lock(c), c, "outcome registration in the callback runs under the dispatch lock")
 
 
+def c04_callback_total(ctx):
+    """A completion is never dropped: on the retrieve-callback branch every path of the callback that leaves WITHOUT
+    retrieving the result is one of the two sanctioned ones (the call id is stale, the call is aborting). Any other early
+    return loses a batch whose worker has finished - nothing registers its outcome and the caller waits for ever."""
+    cb = F(ctx, "BatchCompletionCallBack.__call__")
+    g = cfg_of(cb)
+    rr = [c for c in calls_in(cb) if call_name(c) in ("self._retrieve_result", "self._register_outcome")]
+    ctx.need(rr, "the callback no longer retrieves the result")
+    n = 0
+    for r in nodes_of_type(cb, ast.Return):
+        if any(g.path_exists(g.nodes_of(x), g.nodes_of(r)) for x in rr):
+            continue
+        n += 1
+        facts = g.fact_set(g.nodes_of(r))
+        texts = {(str(t), p) for (t, p) in facts}
+        ok = any(("_call_id" in t and "==" in t and not p) or (t.endswith("._aborting") and p) or (t.endswith("supports_retrieve_callback") and not p) for (t, p) in texts)
+        ctx.check(ok, r, "an early return of the callback is a sanctioned one (stale call id / aborting / backend without retrieval callback)",
+                  "the completion callback returns without retrieving the result under %s: the outcome of a finished batch is never registered and the caller waits for ever"
+                  % (sorted(texts) or "no condition"))
+    ctx.floor(n, 2, "early returns of the completion callback")
+
+
 def c04_wrap(ctx):
     f = F(ctx, "_TracebackCapturingWrapper.__call__", UT)
     hs = [h for t in nodes_of_type(f, ast.Try) for h in t.handlers]
